@@ -248,7 +248,7 @@ fn main() {
     );
     let mut model = ModelProc::from_args(&args);
     let mut tot = Totals { searches: 0, prefixes: 0, bits_differ: 0, schedules: 0 };
-    CONC_CAP.store(args.budget(500, 30_000), std::sync::atomic::Ordering::Relaxed);
+    CONC_CAP.store(args.budget(500, 12_000), std::sync::atomic::Ordering::Relaxed);
     let shapes = all_shapes(3);
 
     if let Some(rp) = &args.replay {
